@@ -3365,6 +3365,18 @@ class IPCone:
             return constr
 
 
+def _outdate(model):
+    """
+    Mark the cached formulas of the RO/DRO model owning the given model as
+    outdated, e.g. after the set of a constraint already added is changed.
+    """
+
+    top = getattr(model, 'top', None)
+    if top is not None:
+        top.pupdate = True
+        top.dupdate = True
+
+
 class RoConstr:
     """
     The Roaffine class creats an object of uncertain affine functions.
@@ -3415,6 +3427,7 @@ class RoConstr:
             sup_model.st(item)
 
         self.support = sup_model.do_math(primal=False, obj=False)
+        _outdate(self.dec_model)
 
         return self
 
@@ -4960,6 +4973,7 @@ class DecLinConstr(LinConstr):
     def forall(self, ambset):
 
         self.ambset = ambset
+        _outdate(self.model)
 
         return self
 
@@ -5045,12 +5059,14 @@ class DecRoConstr(RoConstr):
                 if constr.model is not self.rand_model:
                     raise ValueError('Models mismatch.')
             self.ambset = suppset
+            _outdate(self.dec_model)
             return self
         else:
             if self.dec_model.top is not ambset.model:
                 raise ValueError('Models mismatch.')
 
             self.ambset = ambset
+            _outdate(self.dec_model)
             return self
 
 
